@@ -20,13 +20,15 @@ EXTENDS Integers, Sequences, FiniteSets, TLC, TraceKit
 
 CONSTANTS R, T, P, Poll, Eps
 
-VARIABLES tid, l, queue, marked, headSince, out, calls, order, now, pk
+VARIABLES tid, l, queue, marked, headSince, out, calls, order, now, pk, stallAcc, headStall
+\* stallAcc  : total lateness of loop wake-ups so far (event-loop stalls are logged by the harness)
+\* headStall : stallAcc when the current queue head became the head
 \* pk        : the frame the Packet consumer popped last and has not yet re-queued ([ok, verb] or NoPk)
 \* queue     : <<[id, kind, verb, pair]>>
 \* out       : the outstanding request [c, verb, seq, t, popped] or NoReq
 \* calls     : function task -> [active, gate, gated, attempts, first, gotreply, lastseq, arrived]
 \* order     : sequence of tasks with a started, gate-passing call that has not returned (arrival order)
-tvars == <<tid, l, queue, marked, headSince, out, calls, order, now, pk>>
+tvars == <<tid, l, queue, marked, headSince, out, calls, order, now, pk, stallAcc, headStall>>
 NoPk == [ok |-> FALSE, verb |-> ""]
 Log == Logs[tid]
 Ev == Log.ev
@@ -35,7 +37,7 @@ More == l <= Len(Ev)
 Step == l' = l + 1 /\ UNCHANGED tid
 
 NoReq == [c |-> "", verb |-> "", seq |-> -1, t |-> 0, popped |-> FALSE]
-NoCall == [active |-> FALSE, gate |-> TRUE, gated |-> FALSE, attempts |-> 0, first |-> 0, gotreply |-> FALSE, lastseq |-> -1]
+NoCall == [active |-> FALSE, gate |-> TRUE, gated |-> FALSE, attempts |-> 0, first |-> 0, gotreply |-> FALSE, lastseq |-> -1, stall0 |-> 0]
 TaskNames == { Ev[i].c : i \in { j \in 1..Len(Ev) : Ev[j].k \in {"call", "send", "ret"} } }
 
 ReplyVerb(v) ==
@@ -54,17 +56,17 @@ Accepts(cls, d, by) ==
 
 TInit == /\ TKInit /\ tid \in 1..NLogs /\ l = 1
          /\ queue = <<>> /\ marked = FALSE /\ headSince = 0 /\ out = NoReq
-         /\ calls = [c \in TaskNames |-> NoCall] /\ order = <<>> /\ now = 0 /\ pk = NoPk
+         /\ calls = [c \in TaskNames |-> NoCall] /\ order = <<>> /\ now = 0 /\ pk = NoPk /\ stallAcc = 0 /\ headStall = 0
 
 \* no datagram stays at the head for more than a few polls
-HeadOk(t) == queue = <<>> \/ t - headSince <= 3 * Poll + Eps
+HeadOk(t) == queue = <<>> \/ t - headSince <= 3 * Poll + Eps + (stallAcc - headStall)
 At(t) == t >= now /\ HeadOk(t) /\ now' = t
 
 TCall == /\ More /\ E.k = "call" /\ At(E.t)
          /\ ~calls[E.c].active
          /\ calls' = [calls EXCEPT ![E.c] = [NoCall EXCEPT !.active = TRUE, !.gate = E.gate, !.gated = E.gated]]
          /\ order' = IF E.gated /\ ~E.gate THEN order ELSE Append(order, E.c)
-         /\ UNCHANGED <<queue, marked, headSince, out, pk>> /\ Step
+         /\ UNCHANGED <<queue, marked, headSince, out, pk, stallAcc, headStall>> /\ Step
 
 \* background tasks (ping, refresh, facade update) call the engine without the harness seeing the
 \* call boundaries: their first send opens an implicit call
@@ -82,9 +84,10 @@ TSend ==
      /\ Explicit(c) => cl.attempts < R
      /\ (Explicit(c) /\ Sequenced(E.verb) /\ cl.attempts > 0) => E.seq # cl.lastseq
      /\ calls' = [calls EXCEPT ![c] = [cl EXCEPT !.attempts = @ + 1, !.lastseq = E.seq,
-                                                 !.first = IF cl.attempts = 0 THEN E.t ELSE @]]
+                                                 !.first = IF cl.attempts = 0 THEN E.t ELSE @,
+                                                 !.stall0 = IF cl.attempts = 0 THEN stallAcc ELSE @]]
      /\ out' = [c |-> c, verb |-> E.verb, seq |-> E.seq, t |-> E.t, popped |-> FALSE]
-  /\ UNCHANGED <<queue, marked, headSince, order, pk>> /\ Step
+  /\ UNCHANGED <<queue, marked, headSince, order, pk, stallAcc, headStall>> /\ Step
 
 \* a datagram enters the queue from the network, or is the un-framed content of the frame the
 \* Packet consumer has just taken (only if that frame was well formed and carried this
@@ -95,24 +98,25 @@ TPut == /\ More /\ E.k = "put" /\ At(E.t)
            ELSE UNCHANGED pk
         /\ queue' = Append(queue, [id |-> E.id, kind |-> E.kind, verb |-> E.verb, pair |-> E.pair, wf |-> E.wf])
         /\ headSince' = IF queue = <<>> THEN E.t ELSE headSince
-        /\ UNCHANGED <<marked, out, calls, order>> /\ Step
+        /\ headStall' = IF queue = <<>> THEN stallAcc ELSE headStall
+        /\ UNCHANGED <<marked, out, calls, order, stallAcc>> /\ Step
 TMark == /\ More /\ E.k = "mark" /\ At(E.t)
          /\ queue # <<>> /\ Head(queue).id = E.id
          /\ marked' = TRUE
-         /\ UNCHANGED <<queue, headSince, out, calls, order, pk>> /\ Step
+         /\ UNCHANGED <<queue, headSince, out, calls, order, pk, stallAcc, headStall>> /\ Step
 TPop == /\ More /\ E.k = "pop" /\ At(E.t)
         /\ queue # <<>> /\ Head(queue).id = E.id                    \* exactly once, in order
         \* only by a consumer that accepts it; a consumer task whose callback issues a request of
         \* its own (water-care error -> query) pops the reply as a caller
         /\ (Accepts(E.cls, Head(queue), E.by) \/ Accepts("caller", Head(queue), E.by))
         /\ (E.cls = "U") => marked                                  \* Unhandled only pops what it marked
-        /\ queue' = Tail(queue) /\ marked' = FALSE /\ headSince' = E.t
+        /\ queue' = Tail(queue) /\ marked' = FALSE /\ headSince' = E.t /\ headStall' = stallAcc
         /\ pk' = IF E.cls = "PK" THEN [ok |-> Head(queue).pair /\ Head(queue).wf, verb |-> Head(queue).verb] ELSE pk
         /\ IF Accepts("caller", Head(queue), E.by) /\ ~(E.cls # "caller" /\ Accepts(E.cls, Head(queue), E.by))
            THEN /\ out' = [out EXCEPT !.popped = TRUE]
                 /\ calls' = [calls EXCEPT ![E.by].gotreply = TRUE]
            ELSE UNCHANGED <<out, calls>>
-        /\ UNCHANGED order /\ Step
+        /\ UNCHANGED <<order, stallAcc>> /\ Step
 TRet == /\ More /\ E.k = "ret" /\ At(E.t)
         /\ LET cl == calls[E.c] IN
            /\ cl.active
@@ -121,18 +125,22 @@ TRet == /\ More /\ E.k = "ret" /\ At(E.t)
            /\ E.result = "fail" => (~cl.gotreply /\ cl.attempts = R)
            /\ E.result = "refused" => cl.attempts = 0
            \* finishes within retry-count x (timeout + pause), on the polling grid
-           /\ cl.attempts > 0 => E.t - cl.first <= R * (T + P) + R * Poll + Eps
+           /\ cl.attempts > 0 => E.t - cl.first <= R * (T + P) + R * Poll + Eps + (stallAcc - cl.stall0)
         /\ calls' = [calls EXCEPT ![E.c] = NoCall]
         /\ order' = SelectSeq(order, LAMBDA x : x # E.c)
         /\ out' = IF out.c = E.c THEN NoReq ELSE out
-        /\ UNCHANGED <<queue, marked, headSince, pk>> /\ Step
+        /\ UNCHANGED <<queue, marked, headSince, pk, stallAcc, headStall>> /\ Step
 
 \* mis-addressed / malformed traffic was injected since the last such event: the client's state
 \* (structure bytes, observer callbacks, manager events) must be what it was
 TInert == /\ More /\ E.k = "inert" /\ At(E.t) /\ E.same
-          /\ UNCHANGED <<queue, marked, headSince, out, calls, order, pk>> /\ Step
+          /\ UNCHANGED <<queue, marked, headSince, out, calls, order, pk, stallAcc, headStall>> /\ Step
 
-TNext == TCall \/ TSend \/ TPut \/ TMark \/ TPop \/ TRet \/ TInert
+\* the loop woke up d ms late (a stalled event loop): every bound that spans this moment moves by d
+TStall == /\ More /\ E.k = "stall" /\ E.t >= now /\ now' = E.t /\ stallAcc' = stallAcc + E.d
+          /\ UNCHANGED <<queue, marked, headSince, out, calls, order, pk, headStall>> /\ Step
+
+TNext == TCall \/ TSend \/ TPut \/ TMark \/ TPop \/ TRet \/ TInert \/ TStall
 TSpec == TInit /\ [][TNext]_tvars
 Track == TKTrack(tid, l, l > Len(Ev))
 Report == TKReport
